@@ -323,21 +323,27 @@ def mkfn(ctx, idx, spec, asynchronous=True, suspend=False):
     return f
 
 
-def mkscript(ctx, items, asynchronous=True):
+def mkscript(ctx, items, asynchronous=True, suspend=False):
     """zero-argument callable returning successive items (for iter(callable, sentinel))."""
     items = list(items)
 
     def step():
-        ctx.ev("call", 0, ())
         ctx.use()
         if not items:
             raise RuntimeError("script exhausted")
         return items.pop(0)
     if asynchronous:
         async def f():
+            ctx.ev("call", 0, ())
+            if suspend:
+                await Tok(("call", 0))
             return step()
         return f
-    return step
+
+    def g():
+        ctx.ev("call", 0, ())
+        return step()
+    return g
 
 
 # ------------------------------------------------------------------ driving
@@ -516,7 +522,7 @@ def make_tool(name, p):
     if name == "iter_sentinel":
         sent = p["sentinel"]
         return Tool(name, "script", 1, "(TIterSentinel %s)" % coq_val(sent),
-                    lambda ctx, s, **kw: a.iter(mkscript(ctx, s[0]), sent),
+                    lambda ctx, s, **kw: a.iter(mkscript(ctx, s[0], True, **kw), sent),
                     lambda ctx, s: builtins.iter(mkscript(ctx, s[0], False), sent))
     if name == "all":
         return Tool(name, "agg", 1, "TAll", lambda ctx, s, **kw: a.all(s[0]), lambda ctx, s: builtins.all(s[0]))
@@ -678,7 +684,7 @@ def plan_exc(kind):
     raise ValueError(kind)
 
 
-def run_impl(case, suspend=False, cancel_at=None):
+def run_impl(case, suspend=False, cancel_at=None, cancel_id=9):
     """Run the asyncstdlib tool on instrumented class-based sources. Returns dict(outcome, log, states, uses, srcs)."""
     plan = case.plan
     ctx = Ctx((plan[0], plan_exc(plan[1])) if plan else None)
@@ -688,15 +694,13 @@ def run_impl(case, suspend=False, cancel_at=None):
         script_items = srcs[0]
     else:
         srcs = [(Src if acl else SrcNC)(ctx, i, items, suspend=suspend) for i, (items, acl) in enumerate(builtins.zip(case.srcs, case.acl))]
-    obj = t.impl(ctx, srcs, suspend=suspend) if t.kind != "script" else t.impl(ctx, srcs)
+    obj = t.impl(ctx, srcs, suspend=suspend)
     if t.kind == "agg":
         coro = run_agg(obj)
     else:
         coro = consume_async(ctx, obj)
     if suspend:
-        class _C(BaseException):
-            pass
-        res, toks = drive_tokens(coro, cancel_at, InjBase(9999) if cancel_at is not None else None)
+        res, toks = drive_tokens(coro, cancel_at, InjBase(cancel_id) if cancel_at is not None else None)
     else:
         res = drive(coro)
         toks = []
